@@ -262,7 +262,8 @@ def _category_task(cats):
             part.count("categories")
             sig = "C19:category %s" % c
             _family(part, sig + ":Scalar", [("Scalar(c)", lambda: Scalar(c)), ("Scalar(c, default_value, default_unit)", lambda: Scalar(c, dv, du)), ("Scalar(default_value, default_unit, c)", lambda: Scalar(dv, du, c)),
-                                           ("Scalar(ObtainQuantity(default_unit, c))", lambda: Scalar(ObtainQuantity(du, c))), ("Scalar(c, unit=default_unit)", lambda: Scalar(c, unit=du))])
+                                           ("Scalar(ObtainQuantity(default_unit, c))", lambda: Scalar(ObtainQuantity(du, c))), ("Scalar(c, unit=default_unit)", lambda: Scalar(c, unit=du)),
+                                           ("Scalar.CreateWithQuantity(ObtainQuantity(default_unit, c))", lambda: Scalar.CreateWithQuantity(ObtainQuantity(du, c)))])
             _family(part, sig + ":FractionScalar", [("FractionScalar(c)", lambda: FractionScalar(c)), ("FractionScalar(c, default_value, default_unit)", lambda: FractionScalar(c, dv, du)),
                                                    ("FractionScalar(c, unit=default_unit)", lambda: FractionScalar(c, unit=du))])
             _family(part, sig + ":Array", [("Array(c)", lambda: Array(c)), ("Array(c, [], default_unit)", lambda: Array(c, [], du)), ("Array(ObtainQuantity(default_unit, c))", lambda: Array(ObtainQuantity(du, c)))])
